@@ -173,9 +173,19 @@ pub(crate) unsafe fn bind_gc_obj_string_class(
         ("from_utf8", string_from_utf8 as NativeFn),
         ("from_code_points", string_from_code_points as NativeFn),
     ];
+    // The class object has the members every object has (`derives`), like every other class object.
+    let inherited_static_methods = metaclass
+        .superclass
+        .expect("Expected ObjClass.")
+        .methods
+        .clone();
     // (class-side methods do not read their receiver)
-    let (static_methods, _native_roots) =
-        build_methods_for(vm, &static_method_map, None, true);
+    let (static_methods, _native_roots) = build_methods_for(
+        vm,
+        &static_method_map,
+        Some(inherited_static_methods),
+        true,
+    );
 
     metaclass.as_mut().methods = static_methods;
 
